@@ -298,6 +298,11 @@ PROSE_LINE_DOCS = [
 ]
 
 
+# a word, then an inline element of every kind, then a call that could break - on one line
+PROSE_LINE_DOCS += ['a %s #f(b, c)\n' % x_ for x_ in ('$ x $', '$x$', '`r`', '*b*', '_e_', '#g()', '#[c]', '<l>', '@r', '\\#', '---', "'q'", 'https://x.y', '#h(1em)', '$ x $ y', '/* c */', '#{ 1 }', '#(1 + 2)')]
+PROSE_LINE_DOCS += ['%s a #f(b, c)\n' % x_ for x_ in ('$ x $', '`r`', '#g()', '<l>', '---')] + ['- a $ x $ #f(b, c)\n', '#[a $ x $ #f(b, c)]\n', '= a $ x $ #f(b, c)\n', 'a $ x $ #f(b, c) d\n']
+
+
 def prose_lines_broken(tree, tree2):
     """C08 on parsed trees: the children of a markup node that stood on one line holding prose (a Text, strong, emph or raw element) still stand on one
     line, and none of them gained a line break inside (an element that already spanned lines in the source is not judged).  Returns a description of
@@ -658,15 +663,27 @@ def explore(S, docs, tabs=(2,), prop='C03', widths=(0, 40, 1 << 30)):
                 tasks.append(('reparse[%s,width %d,tab %d]' % (show(src)[:36], width, tab),
                               'two passes of the real printer over %s with the real parser in between give the same text (width %d, indent unit %d, blanks symbolic)' % (show(src)[:60], width, tab),
                               body, dict(document=src[:80], tab=tab, width=width)))
+    native_only = 0
     for (ob, viol), task in zip(S.explore_batch(tasks), tasks):
         if ob.status.startswith('inconclusive'):
             S.inconclusive[:] = [x for x in S.inconclusive if not x.startswith(ob.name + ':')]
             coverage['gaps'].append('%s: %s' % (ob.name, ob.status[:160]))
+            # the path could not be executed (a foreign callee without contract): nothing is decided for this document by the solver.  The same
+            # comparison is still made on the real library for the document as written; a deviation there is a reproduced violation
+            meta = task[3]
+            info = dict(source=meta['document'] if len(meta['document']) < 80 else None, seed=meta['document'], tab=meta['tab'], width=meta['width'], reorder=0, undecided=ob.status[:120])
+            src_full = next((d_ for d_ in docs if d_[:80] == meta['document']), None)
+            if src_full is not None:
+                info['source'] = info['seed'] = src_full
+                if confirm(S, dict(info, width=min(meta['width'], 1 << 20)), prop, only_width=True):
+                    native_only += 1
+                    found.append(('%s:%s' % (prop, {'C01': 'syntax-tree-changed', 'C02': 'evaluation-visible-tree-changed', 'C03': 'second-pass-changes-the-text', 'C04': 'output-does-not-parse',
+                                                     'C06': 'comments-lost-duplicated-reordered-or-reworded', 'C08': 'line-that-holds-prose-broken', 'C09': 'math-whitespace-or-display-flag-changed'}.get(prop, 'deviation')), info))
         else:
             coverage['decided'] += 1
         for lab, mdl, info in viol:
             found.append((lab, info))
-    S.validation['reparse_documents'] = dict(coverage, gaps=coverage['gaps'][:6], n_gaps=len(coverage['gaps']), tasks=len(tasks))
+    S.validation['reparse_documents'] = dict(coverage, gaps=coverage['gaps'][:6], n_gaps=len(coverage['gaps']), tasks=len(tasks), undecided_documents_with_a_native_deviation=native_only)
     return found, coverage
 
 
@@ -823,14 +840,14 @@ def report_range(S, found):
             S.inconclusive.append('%s: no solver model reproduced natively (%r)' % (key, {k: v for k, v in infos[0].items() if k not in ('spliced', 'text')}))
 
 
-def confirm(S, info, prop='C03'):
+def confirm(S, info, prop='C03', only_width=False):
     """the same on the real library at the width of the task and a few others"""
     src = info['source']
     if S.driver.call('erroneous', hexs(src))[1] == '1':
         return None
     if prop in ('C01', 'C04', 'C02', 'C09', 'C06', 'C08'):
         t_src = deep.tree_of(S, src)
-        for w in (info['width'], 0, 80, 40, 20, 15, 10, 1 << 20):
+        for w in ((info['width'],) if only_width else (info['width'], 0, 80, 40, 20, 15, 10, 1 << 20)):
             a = S.driver.call('format', hexs(src), w, info.get('tab', 2), info.get('reorder', 0))
             if a[0] != 'ok':
                 continue
@@ -860,7 +877,7 @@ def confirm(S, info, prop='C03'):
                     return dict(api='Typstyle::format_content', source=src, width=w, tab=info.get('tab', 2), output=out, difference=d,
                                 what='the syntax tree of %s changes when formatted (width %d) to %s: %s' % (show(src), w, show(out), d))
         return None
-    for w in (info['width'], 0, 80, 40, 20, 1 << 20):
+    for w in ((info['width'],) if only_width else (info['width'], 0, 80, 40, 20, 1 << 20)):
         a = S.driver.call('format', hexs(src), w, info.get('tab', 2), info.get('reorder', 0))
         if a[0] != 'ok':
             continue
